@@ -86,6 +86,7 @@ REQUIRE = {
     "op_find": 8, "op_get": 8, "op_move": 4, "op_n-set": 6, "op_n-create": 6, "op_n-action": 6,
     "op_n-event-report": 6, "op_n-get": 6, "rsp_transfers": 40, "exact_multiple_transfers": 6,
     "multi_fragment_transfers": 60, "maxpdu_unlimited_transfers": 15, "decoded_compared": 200,
+    "concurrent_store_cases": 5, "concurrent_store_transfers": 60,
 }
 
 
@@ -219,6 +220,8 @@ def gen_cases(tier, seed):
             ts_map = {k: rng.choice(TS_NAMES) for k in ("store", "find", "get", "move", "n")}
             ts_map[rng.choice(["store", "find", "n"])] = ts
         cases.append(gen_case(seed, idx, ts, recv_chunked, profile, rng.choice([6, 7, 8]), rng.randrange(64), ts_map))
+    for i in range(6 if tier == "quick" else 100):
+        cases.append({"concurrent": True, "seed": seed, "i": i, "k": rng.choice([3, 4, 6]), "m": 5, "max_pdu": rng.choice([0, 1024, 16382])})
     return cases
 
 
@@ -823,7 +826,97 @@ def _proxies(pred):
     return [p for p in taps.State.socks if pred(p.assoc)]
 
 
+def run_concurrent_stores(case):
+    """K associations of one requestor AE store different data sets at the same time to one SCP (own thread each, tiny switch
+    interval): what the handler got for a SOP Instance UID must be the data set that was sent under that UID."""
+    import hashlib
+    import sys
+    import threading
+    from pydicom.dataset import Dataset, FileMetaDataset
+    from pydicom.uid import ExplicitVRLittleEndian, ImplicitVRLittleEndian
+    from pynetdicom import evt
+    taps.reset()
+    rng = rng_for(case["seed"], PID, "concurrent", case["i"])
+    K, M = case["k"], case["m"]
+    got = {}
+    glock = threading.Lock()
+
+    def on_store(event):
+        ds = event.dataset
+        v = ds[(0x0011, 0x1001)].value if (0x0011, 0x1001) in ds else None
+        payload = bytes(v) if v else b""
+        with glock:
+            got.setdefault(str(event.request.AffectedSOPInstanceUID), []).append(
+                (str(ds.get("SOPInstanceUID")), str(ds.get("PatientID")), len(payload), hashlib.sha1(payload).hexdigest()))
+        return 0x0000
+    tsu = [ImplicitVRLittleEndian, ExplicitVRLittleEndian]
+    scp = harness.make_ae("C25-SCP", timeouts=(5.0, 6.0, 8.0, 5.0), supported=[(CT, tsu)], max_pdu=case["max_pdu"])
+    server, port = harness.start_server(scp, [(evt.EVT_C_STORE, on_store)])
+    scu = harness.make_ae("C25-SCU", timeouts=(5.0, 6.0, 8.0, 5.0), requested=[(CT, tsu)])
+    plans, sent, errors = [], {}, []
+    for a in range(K):
+        plan = []
+        for m in range(M):
+            uid = "1.2.826.0.1.3680043.9.3811.25.%d.%d" % (a + 1, m + 1)
+            n = rng.choice([0, 10, 300, 4000, 20000])
+            payload = bytes([(a * 31 + m * 7 + i) % 251 for i in range(n)])
+            ds = Dataset()
+            ds.SOPClassUID = CT
+            ds.SOPInstanceUID = uid
+            ds.PatientID = "A%dM%d" % (a, m)
+            ds.add_new((0x0011, 0x0010), "LO", "VERIF")
+            ds.add_new((0x0011, 0x1001), "OB", payload)
+            ds.file_meta = FileMetaDataset()
+            ds.file_meta.TransferSyntaxUID = rng.choice(tsu)
+            plan.append(ds)
+            sent[uid] = (uid, ds.PatientID, len(payload), hashlib.sha1(payload).hexdigest())
+        plans.append(plan)
+    barrier = threading.Barrier(K)
+
+    def worker(a):
+        try:
+            assoc = scu.associate("127.0.0.1", port)
+            if not assoc.is_established:
+                errors.append("association %d not established" % a)
+                return
+            barrier.wait(5.0)
+            for ds in plans[a]:
+                st = assoc.send_c_store(ds)
+                if getattr(st, "Status", None) != 0x0000:
+                    errors.append("association %d: status %r for %s" % (a, getattr(st, "Status", None), ds.SOPInstanceUID))
+            assoc.release()
+        except Exception as exc:
+            errors.append("thread %d: %r" % (a, exc))
+    old = sys.getswitchinterval()
+    sys.setswitchinterval(1e-5)
+    try:
+        ths = [threading.Thread(target=worker, args=(a,), daemon=True) for a in range(K)]
+        for t in ths:
+            t.start()
+        for t in ths:
+            t.join(60.0)
+    finally:
+        sys.setswitchinterval(old)
+    taps.wait_quiet(5.0)
+    harness.stop_ae(scu)
+    harness.stop_ae(scp)
+    viol = []
+    for uid, want in sent.items():
+        seen = got.get(uid) or []
+        if not seen:
+            viol.append({"key": "concurrent-stores|dataset-not-delivered", "detail": "%s was sent, the handler never saw it; errors %r" % (uid, errors[:3])})
+        elif any(x != want for x in seen):
+            viol.append({"key": "concurrent-stores|dataset-differs-or-belongs-to-another-association",
+                         "detail": "sent %r, handler saw %r (%d associations storing at the same time)" % (want, seen, K)})
+    counters = {"concurrent_store_cases": 1, "concurrent_store_transfers": sum(len(v) for v in got.values())}
+    return {"key": sha(["concurrent", case["i"], K, M]), "nontrivial": bool(got), "sample": {"kind": "concurrent-stores", "associations": K,
+            "stores_each": M, "max_pdu": case["max_pdu"], "errors": errors[:3]}, "violations": viol[:5], "counters": counters,
+            "inconclusive": ("errors: %r" % errors[:3]) if errors and not viol else None}
+
+
 def run_case(case):
+    if case.get("concurrent"):
+        return run_concurrent_stores(case)
     from pynetdicom import _config, build_context, build_role, evt
 
     run = Run(case)
